@@ -346,7 +346,9 @@ func (r *Run) ExecBlock(bi int, b Block) {
 			cctx := n.CommittedCtx(c)
 			for k := 0; k < len(vals); k++ {
 				idx := (((prop + k) % len(vals)) + len(vals)) % len(vals)
-				if n.App.StakingKeeper.ValidatorByConsAddr(cctx, sdk.ConsAddress(vals[idx].Address)) != nil {
+				ok := false
+				_ = guard("probe", func() { ok = n.App.StakingKeeper.ValidatorByConsAddr(cctx, sdk.ConsAddress(vals[idx].Address)) != nil })
+				if ok {
 					prop = idx
 					break
 				}
